@@ -25,7 +25,7 @@ Apply(o, ev) ==
     [] ev.op = "Start"   -> O!OStart(o, ev.r, ev.k, ev.d, ev.m)
     [] ev.op = "Looked"  -> O!OLooked(o, ev.r, ev.e)
     [] ev.op = "LoadBad" -> O!OLoadBad(o, ev.r)
-    [] ev.op = "Decide"  -> O!ODecide(o, ev.r, ev.label, ev.wait, ev.now)
+    [] ev.op = "Decide"  -> O!ODecide(o, ev.r, ev.label, ev.wait, ev.now, ev.v)
     [] ev.op = "Resume"  -> O!OResume(o, ev.r, ev.label)
     [] ev.op = "Woken"   -> O!OWoken(o, ev.r)
     [] ev.op = "Age"     -> O!OAge(o, ev.r, ev.age, ev.now)
@@ -35,7 +35,8 @@ Apply(o, ev) ==
     [] ev.op = "Hfp"     -> O!OHfp(o, ev.e, ev.d, ev.k, ev.now, ev.eff)
     [] ev.op = "End"     -> O!OEnd(o, ev.r, ev.label, ev.err, ev.v)
     [] ev.op = "Removed" -> O!ORemoved(o, ev.d, ev.k)
-    [] ev.op = "Purged"  -> O!OPurged(o, ev.d, ev.k)
+    [] ev.op = "Purged"  -> O!OPurged(o, ev.d, ev.k, ev.ok)
+    [] ev.op = "Loaded"  -> O!OLoaded(o, ev.r)
     [] ev.op = "Evicted" -> O!OEvicted(o, ev.d, ev.k)
     [] ev.op = "Kill"    -> O!OKill(o)
     [] ev.op = "Stuck"   -> O!OStuck(o, ev.r)
